@@ -248,4 +248,8 @@ pub open spec fn none_witness(&self, start: int, kk: nat, tag: u8, f: spec_fn(us
     &&& (exists|t: int| 0 <= t < Group::WIDTH && #[trigger] self.win(spec_pos(start, self.nb(), kk), t) == 0xFFu8)
 }
 
+/// a remembered insert slot is a bucket in range (EMPTY/DELETED for tables of at least one group)
+pub open spec fn slot_ok(&self, s: Option<usize>) -> bool {
+    s matches Some(i) ==> i <= self.bucket_mask && (self.nb() >= Group::WIDTH ==> self.ctrl@[i as int] >= 0x80u8)
+}
 }
